@@ -850,3 +850,9 @@ impl RestorePlan {
             .collect()
     }
 }
+
+#[cfg(rustic_core_verif)]
+#[allow(missing_docs, unused_imports, dead_code, clippy::all, clippy::pedantic, clippy::nursery)]
+pub mod verif_hooks {
+    use super::*;
+}
